@@ -58,6 +58,8 @@ def generate(seed, tier):
         case['book_exo'] = True
     if which != 'ITER' and S['swarm'].random() < 0.25:
         case['resolve'] = True
+    if which != 'ITER' and S['swarm'].random() < 0.2:
+        case['params_exo'] = True
     if rng.random() < 0.6:
         case['V0'] = round(rng.uniform(5, 150), 2)
     if which == 'SIMEX1' and rng.random() < 0.7:
@@ -190,9 +192,16 @@ def run_builder(c, tol=1e-12):
     ctry = b.Country
     hh = ctry['HH']
     tf = ctry['TF']
-    hh.AlphaIncome = c['alpha1']
-    hh.AlphaFin = c['alpha2']
-    tf.TaxRate = c['theta']
+    if c.get('params_exo'):
+        # the same parameters supplied as (constant) exogenous series instead of attributes
+        n = c['T'] + 2
+        hh.SetExogenous('AlphaIncome', [c['alpha1']] * n)
+        hh.SetExogenous('AlphaFin', [c['alpha2']] * n)
+        tf.SetExogenous('TaxRate', [c['theta']] * n)
+    else:
+        hh.AlphaIncome = c['alpha1']
+        hh.AlphaFin = c['alpha2']
+        tf.TaxRate = c['theta']
     gov = ctry['TRE'] if c['which'] == 'PC' else ctry['GOV']
     gov.SetExogenous('DEM_GOOD', list(c['G']))
     book = bool(c.get('book_exo', False))     # then the builder also stated the book's initial conditions: restate all
@@ -304,6 +313,8 @@ def execute(case):
         stats['probes']['initial_stocks'] = 1
     if case.get('resolve'):
         stats['probes']['solved_twice_on_the_same_solver'] = 1
+    if case.get('params_exo'):
+        stats['probes']['parameters_given_as_exogenous_series'] = 1
     if case.get('book_exo'):
         stats['probes']['paths_restated_over_builder_defaults'] = 1
     sig = core.digest([case['which'], case['on_grid'], case['T'], case['jumps'], bool(case['V0']), bool(case.get('YD0')),
